@@ -65,6 +65,15 @@ pub struct Fixer<L: Language> {
 }
 
 impl<L: Language> Fixer<L> {
+  /// check if util rules used in expandStart and expandEnd are defined
+  pub(crate) fn verify_util(&self) -> Result<(), RuleSerializeError> {
+    for expansion in [&self.expand_start, &self.expand_end].into_iter().flatten() {
+      expansion.matches.verify_util()?;
+      expansion.stop_by.verify_util()?;
+    }
+    Ok(())
+  }
+
   fn do_parse(
     serialized: &SerializableFixConfig,
     env: &DeserializeEnv<L>,
